@@ -292,11 +292,19 @@ class Registry(asset.Registry, alias='posix'):
         release = package.manifest.version
         path = self._path.package(project, release)
         path.parent.mkdir(parents=True, exist_ok=True)
+        # stage under a hidden sibling name and rename into place so that an interrupted push
+        # never leaves a listed release with a partial package behind
+        temp = path.with_name(f'.{path.name}.tmp')
+        if temp.is_dir():
+            shutil.rmtree(temp)
+        else:
+            temp.unlink(missing_ok=True)
         if package.path.is_dir():
-            shutil.copytree(package.path, path, ignore=lambda *_: {'__pycache__'})
+            shutil.copytree(package.path, temp, ignore=lambda *_: {'__pycache__'})
         else:
             assert package.path.is_file(), 'Expecting file package'
-            path.write_bytes(package.path.read_bytes())
+            temp.write_bytes(package.path.read_bytes())
+        temp.replace(path)
 
     def read(
         self,
